@@ -2331,20 +2331,22 @@ class Problem(object, metaclass=ProblemMetaclass):
 
         if outputs:
             for name in outputs:
-                if set_later(name):
-                    continue
-
                 if resolver.is_prom(name):
                     if case_is_dict:
                         val = outputs[name]['val']
                     else:
                         val = outputs[name]
 
+                    # whether a variable is left to a subsystem that overrides load_case is
+                    # decided on absolute names: a promoted name can begin like the pathname
+                    # of a system that the variable does not belong to.
                     if resolver.is_prom(name, 'output'):
                         abs_names = resolver.absnames(name, 'output')
                     else:
                         # an auto_ivc output is recorded under the promoted name of the inputs it
                         # feeds.  Its value is in the units of the source, not of each input.
+                        if all(set_later(n) for n in resolver.absnames(name, 'input')):
+                            continue
                         abs_names = (resolver.source(name),)
 
                     for abs_name in abs_names:
@@ -2356,7 +2358,7 @@ class Problem(object, metaclass=ProblemMetaclass):
                             model.set_val(abs_name, scatter_dist_to_local(val, model.comm, sizes))
                         else:
                             model.set_val(abs_name, val)
-                else:
+                elif not set_later(name):
                     issue_warning(f"{model.msginfo}: Output variable, '{name}', recorded "
                                   "in the case is not found in the model.")
 
